@@ -475,6 +475,49 @@ theorem gstep_inv {M : Type} (pm : M → M) (g : GS M) (st : VStep M) (hi : GInv
                   rw [hcell] at hx
                   rw [if_neg hm]
                   exact hc0.conv d x hx
+    | seed i e =>
+      cases hf : g.v.es.subs.find? (fun sb => sb.idx = i) with
+      | none => exact hi.noop pm _ (by simp only [filtered, hf]) (by simp only [step, hf])
+      | some sb =>
+        have hsb := find_mem hf
+        have hidx : sb.idx = i := by simpa using List.find?_some hf
+        by_cases hm : sb.mask = true
+        · have hfil : filtered g.v.es (.seed i e) = some e := by simp only [filtered, hf, if_pos hm]
+          rw [gstep_some pm g _ _ hfil]
+          have hinv := step_inv (projFor g.v.mnext e) g.v.es (.seed i e) hi.inv
+          simp only [step, hf, if_pos hm] at hinv ⊢
+          have c1 := cloneVal_frame pm g.v.msgs g.v.mnext e.new
+          have c2 := cloneVal_frame pm (cloneVal pm g.v.msgs g.v.mnext e.new).1 (cloneVal pm g.v.msgs g.v.mnext e.new).2 e.old
+          refine GInv.alloc_replace hi sb hsb [_, _] _ _ _ _ (Nat.le_trans c1.1 c2.1)
+            (fun x hx => by rw [if_neg]; omega) rfl rfl hinv (fun p h => Or.inl h) ?_
+          intro c hc
+          simp only [List.mem_append, List.mem_singleton] at hc
+          rcases hc with hc | hc
+          · exact Or.inl hc
+          · subst hc
+            refine Or.inr (fun x hx => ?_)
+            have hcell : ∀ (h : Nat → Ev) (n : Nat) (a b : Ev), pushCells h n [a, b] (n + 1) = b := by
+              intro h n a b; simp [pushCells]
+            rw [hcell] at hx
+            have hv := vals_projEv pm g.v.msgs g.v.mnext e x hx
+            refine ⟨hv.2, ?_⟩
+            simp only [stepSub]
+            rw [if_pos ⟨hv.1, hv.2⟩, if_pos hm, hidx]
+        · have hfil : filtered g.v.es (.seed i e) = none := by simp only [filtered, hf, if_neg hm]
+          rw [gstep_none pm g _ hfil]
+          have hinv := step_inv id g.v.es (.seed i e) hi.inv
+          simp only [step, hf, if_neg hm] at hinv ⊢
+          refine GInv.alloc_replace hi sb hsb [_] _ _ _ _ (Nat.le_refl _) (fun _ _ => rfl) rfl rfl hinv
+            (fun p h => Or.inl h) ?_
+          intro c hc
+          simp only [List.mem_append, List.mem_singleton] at hc
+          rcases hc with hc | hc
+          · exact Or.inl hc
+          · subst hc
+            refine Or.inr (fun x hx => ?_)
+            simp only [pushCells, if_true] at hx
+            rw [if_neg hm]
+            exact hok x hx
 
 theorem grun_inv {M : Type} (pm : M → M) (steps : List (VStep M)) :
     ∀ g : GS M, GInv g → OKfrom pm g steps → GInv (grun pm g steps) := by
